@@ -36,7 +36,7 @@ func (analyzerEngine) counts(prop, tier string) (sys, rnd, fix int) {
 	case "C14":
 		sys = 128 + 9 + 9 + 50 + 4
 	case "C15":
-		sys = 7 * 12
+		sys = 7 * 14
 	}
 	return
 }
@@ -80,6 +80,15 @@ func (e analyzerEngine) Gen(prop, tier string, seed uint64, idx int) *runner.Cas
 		c.Name = "sys/" + p.Name
 		if hostile {
 			c.Name += "/hostile"
+			if i%2 == 0 {
+				// the path item is also a $ref: its sibling operations and parameters are still part of the document
+				if pi := jx.AsObj(jx.AsObj(doc["paths"])[path]); pi != nil {
+					if _, has := pi["$ref"]; !has {
+						pi["$ref"] = "#/x-shared-paths/other"
+						c.Name += "/pathitem-ref"
+					}
+				}
+			}
 		}
 	case idx < sys && prop == "C14":
 		doc = c14Sys(idx, c)
@@ -213,8 +222,8 @@ func c14Sys(idx int, c *runner.Case) jx.Obj {
 }
 
 func c15Sys(idx int, c *runner.Case) jx.Obj {
-	m := oracle.Methods[idx/12]
-	s := idx % 12
+	m := oracle.Methods[idx/14]
+	s := idx % 14
 	c.Name = fmt.Sprintf("sys/params/%s/scenario%d", m, s)
 	q := func(name, in string, n int) jx.Obj {
 		return jx.Obj{"name": name, "in": in, "type": "string", "description": "p" + strconv.Itoa(n)}
@@ -251,8 +260,18 @@ func c15Sys(idx int, c *runner.Case) jx.Obj {
 	case 8:
 		pi["parameters"] = jx.Arr{q("a", "query", 1), ref("#/responses/r")}
 		op["parameters"] = jx.Arr{ref("#/parameters/shared/name"), q("b", "query", 2), ref("#/nowhere")}
+	case 12: // an x-go-name extension does not change which parameter overrides which
+		withExt := q("limit", "query", 1)
+		withExt["x-go-name"] = "MaxItems"
+		pi["parameters"] = jx.Arr{withExt, ref("#/parameters/named")}
+		jx.AsObj(doc["parameters"])["named"] = jx.Obj{"name": "skip", "in": "query", "type": "string", "x-go-name": "Offset", "description": "p102"}
+		op["parameters"] = jx.Arr{q("limit", "query", 2), q("skip", "query", 3)}
+	case 13: // ... nor which parameters are distinct
+		ord := q("order", "query", 2)
+		ord["x-go-name"] = "Sort"
+		op["parameters"] = jx.Arr{q("sort", "query", 1), ord}
 	case 9:
-		other := oracle.Methods[(idx/12+1)%7]
+		other := oracle.Methods[(idx/14+1)%7]
 		pi = jx.Obj{other: op, "parameters": jx.Arr{q("a", "query", 1)}}
 	case 10:
 	case 11:
